@@ -5,6 +5,8 @@ Same harnesses as C01 with one symbolic single-point corruption per payload
 object or list position): CBMC decides that `deserialize` fails whenever the oracle
 says the payload does not conform.  `__typename` dispatch (tagged enums) is outside.
 """
+import json
+import vp_common as vc
 import krun
 import abstract_common as AC
 
@@ -25,3 +27,20 @@ def main():
                      'payload shapes: list lengths 0..2, one optional unknown member per object, symbolic i64 / f64 / bool, strings concrete (quick) or <= 1 symbolic byte (thorough)',
                      'operations: the catalogue under kgen/catalogue; interface / union / fragment-spread / ID positions are excluded (serde Content)'],
         jobs=6, pre=lambda out: AC.part(PROP, out, with_render=True))
+
+
+def replay(path):
+    def other(p):
+        import consumer
+        import abstract_common as AC
+        C = consumer.Consumer(vc.scratch(PROP + 'r'))
+        mdl = p['model']
+        if 'via' in mdl:
+            ok, desc, _ = AC.confirm_nesting(C, mdl)
+        elif 'selections' in mdl:
+            ok, desc, _ = AC.confirm(C, mdl, other_variant=mdl.get('fragments_other_variant', False))
+        else:
+            ok, desc, _ = AC.confirm_required(C, mdl)
+        print(desc)
+        return 1 if ok is False else 0
+    return krun.replay_generic(PROP, build, lambda v: v != 'AcceptedInvalid', path, other=other)
